@@ -179,3 +179,11 @@ PROP_INFO["X_RACE"] = dict(X); SUITES["X_RACE"] = {"quick": [{"family": "fsm", "
 # the race-detector slice of the quick tier also covers the families with watchers and BMP stations (D49, KF6 were only seen by the thorough tier before)
 SUITES["C20"]["quick"] += [{"family": "fsm", "mode": "", "share": 1, "race": True}, {"family": "mon", "mode": "", "share": 1, "race": True}]
 PROP_INFO["C20"]["budget"] = {"quick": 120, "thorough": 1800}
+
+# ---- zebra/nht: next-hop reachability reported by zebra (first step of the decision process, C03)
+ALL_FAMILIES += [("zebra", "nht")]
+_NH = {"family": "zebra", "mode": "nht", "share": 1}
+SUITES["C03"]["quick"] += [dict(_NH)]
+SUITES["C03"]["thorough"] += [dict(_NH)]
+SUITES["C20"]["thorough"] += [dict(_NH)]
+PROP_INFO["X_NHT"] = dict(X); SUITES["X_NHT"] = {"quick": [dict(_NH)], "thorough": [dict(_NH)]}
